@@ -710,7 +710,15 @@ func (e *Engine) rangeStmt(s *ast.RangeStmt, in []*State) []*State {
 	}
 	e.quiet--
 	cur := compact(head.list)
-	exit := compact(setMark(cur, ""))
+	// leaving the loop without having gone round is only possible when the operand can be empty
+	var exitStates []*State
+	for _, st := range cur {
+		if indexed && st.Ext(mark) == "0" && e.LenAtLeast(st, s.X, 1) {
+			continue
+		}
+		exitStates = append(exitStates, st)
+	}
+	exit := compact(setMark(exitStates, ""))
 	cur = e.hookEach(cur, func(st *State) *State { return e.Client.LoopHead(e, st, s) })
 	cur = e.hookEach(cur, bind)
 	e.pushTarget(s, true)
